@@ -18,18 +18,24 @@
 (* executor (every hook and command is one executor job).                                 *)
 (* It states the end-to-end forms of C01, C02, C03, C06 and C14 at COMMAND level.         *)
 EXTENDS Naturals, FiniteSets, Sequences, TLC
-CONSTANTS N, MaxCmd, MaxVar, NCtx, HookKinds
+CONSTANTS N, MaxCmd, MaxVar, NCtx, HookKinds,
+          Nesting      \* BOOLEAN: stages may belong to an included pipeline (graph 1) and outer stages may include it
 Stages == 1..N
 Ctxs == 1..NCtx
 Classes == {"OK", "FAIL", "FAILA", "CFALSE"}
+Graphs == {0, 1}
 VARIABLES deps, cls, ncmd, failAt, nvar, ctx, hb, ha, upFails,   \* configuration
-          status, gerr, loop,                            \* scheduler: stage statuses, g.error, loop alive
+          gr, inc,                                       \* graph of a stage (0 outer, 1 the included pipeline);
+                                                         \*   inc[s]: outer stage s runs the included pipeline
+          status, gerr, loop,                            \* scheduler: stage statuses, g.error per graph, outer loop alive
+          nl, by,                                        \* nested Schedule of an including stage: none|loop|ret;
+                                                         \*   by[s]: the including stage whose loop launched inner stage s
           gpc,                                           \* stage goroutine: none | launched | inrun | back | fin
           rpc, pt, role, done, rfail, ran,               \* run: none | entered | exited; progress point; job
                                                          \*   in execution; commands done; failed; hooks run
           upst, dn                                       \* context: up no|running|ok|failed; down no|running|done
-cfgv == <<deps, cls, ncmd, failAt, nvar, ctx, hb, ha, upFails>>
-vars == <<deps, cls, ncmd, failAt, nvar, ctx, hb, ha, upFails, status, gerr, loop, gpc, rpc, pt, role, done, rfail, ran, upst, dn>>
+cfgv == <<deps, cls, ncmd, failAt, nvar, ctx, hb, ha, upFails, gr, inc>>
+vars == <<deps, cls, ncmd, failAt, nvar, ctx, hb, ha, upFails, gr, inc, status, gerr, loop, nl, by, gpc, rpc, pt, role, done, rfail, ran, upst, dn>>
 
 Allow(s) == cls[s] = "FAILA"
 Fails(s) == cls[s] \in {"FAIL", "FAILA"}          \* the command at position failAt exits non-zero
@@ -37,34 +43,52 @@ Total(s) == ncmd[s] * nvar[s]
 Sat(d) == status[d] \in {"D", "S"} \/ (status[d] = "E" /\ Allow(d))
 Blocked(d) == (status[d] = "E" /\ ~Allow(d)) \/ status[d] = "C"
 
-Init == /\ deps \in {f \in [Stages -> SUBSET Stages] : \A s \in Stages : \A d \in f[s] : d < s}
+Inner == {s \in Stages : gr[s] = 1}
+Init == /\ gr \in (IF Nesting THEN [Stages -> Graphs] ELSE {[s \in Stages |-> 0]})
+        /\ inc \in [Stages -> BOOLEAN]
+        /\ \A s \in Stages : inc[s] => gr[s] = 0 /\ Inner # {}
+        /\ deps \in {f \in [Stages -> SUBSET Stages] : \A s \in Stages : \A d \in f[s] : d < s /\ gr[d] = gr[s]}
         /\ cls \in [Stages -> Classes]
+        /\ \A s \in Stages : inc[s] => cls[s] # "FAIL"           \* an including stage fails iff the pipeline does
         /\ ncmd \in [Stages -> 1..MaxCmd]
         /\ failAt \in [Stages -> 1..MaxCmd] /\ \A s \in Stages : failAt[s] <= ncmd[s] /\ (~Fails(s) => failAt[s] = 1)
         /\ nvar \in [Stages -> 1..MaxVar]
         /\ ctx \in [Stages -> 0..NCtx]
         /\ hb \in [Stages -> HookKinds] /\ ha \in [Stages -> HookKinds]
         /\ upFails \in [Ctxs -> BOOLEAN]
-        /\ status = [s \in Stages |-> "W"] /\ gerr = FALSE /\ loop = TRUE
+        /\ status = [s \in Stages |-> "W"] /\ gerr = [g \in Graphs |-> FALSE] /\ loop = TRUE
+        /\ nl = [s \in Stages |-> "none"] /\ by = [s \in Stages |-> 0]
         /\ gpc = [s \in Stages |-> "none"] /\ rpc = [s \in Stages |-> "none"]
         /\ pt = [s \in Stages |-> "start"] /\ role = [s \in Stages |-> "none"]
         /\ done = [s \in Stages |-> 0] /\ rfail = [s \in Stages |-> FALSE] /\ ran = [s \in Stages |-> {}]
         /\ upst = [c \in Ctxs |-> "no"] /\ dn = [c \in Ctxs |-> "no"]
 
 \* --- scheduler layer (one iteration of the loop body for stage s; cf. Scheduler.tla VisitOutcome) ---
+\* an outer stage is visited by the outer loop, a stage of the included pipeline by the loop of a
+\* nested Schedule call that is in progress (one per including stage that is running)
+LiveLoops(s) == IF gr[s] = 0 THEN {0} ELSE {i \in Stages : inc[i] /\ nl[i] = "loop"}
 Visit(s) ==
-  /\ loop /\ status[s] = "W"
-  /\ IF cls[s] = "CFALSE" THEN status' = [status EXCEPT ![s] = "S"] /\ UNCHANGED gpc
-     ELSE IF \E d \in deps[s] : Blocked(d) THEN status' = [status EXCEPT ![s] = "C"] /\ UNCHANGED gpc
+  /\ (gr[s] = 0 => loop) /\ LiveLoops(s) # {} /\ status[s] = "W"
+  /\ IF cls[s] = "CFALSE" THEN status' = [status EXCEPT ![s] = "S"] /\ UNCHANGED <<gpc, by>>
+     ELSE IF \E d \in deps[s] : Blocked(d) THEN status' = [status EXCEPT ![s] = "C"] /\ UNCHANGED <<gpc, by>>
      ELSE /\ \A d \in deps[s] : Sat(d)
           /\ status' = [status EXCEPT ![s] = "R"] /\ gpc' = [gpc EXCEPT ![s] = "launched"]
-  /\ UNCHANGED <<cfgv, gerr, loop, rpc, pt, role, done, rfail, ran, upst, dn>>
+          /\ \E i \in LiveLoops(s) : by' = [by EXCEPT ![s] = i]
+  /\ UNCHANGED <<cfgv, gerr, loop, nl, rpc, pt, role, done, rfail, ran, upst, dn>>
 \* the stage goroutine calls runStage -> TaskRunner.Run
+\* (an including stage: runStage -> Schedule of the included pipeline, whose loop is then alive)
 StageEnter(s) == /\ gpc[s] = "launched" /\ gpc' = [gpc EXCEPT ![s] = "inrun"]
-                 /\ UNCHANGED <<cfgv, status, gerr, loop, rpc, pt, role, done, rfail, ran, upst, dn>>
+                 /\ nl' = IF inc[s] THEN [nl EXCEPT ![s] = "loop"] ELSE nl
+                 /\ UNCHANGED <<cfgv, status, gerr, loop, by, rpc, pt, role, done, rfail, ran, upst, dn>>
+\* the nested Schedule of including stage i returns: every stage of the included pipeline is terminal
+\* and the stage goroutines THIS call launched have finished (its own WaitGroup)
+NReturn(i) == /\ inc[i] /\ nl[i] = "loop"
+              /\ \A s \in Inner : status[s] \notin {"W", "R"} /\ (by[s] = i => gpc[s] \in {"none", "fin"})
+              /\ nl' = [nl EXCEPT ![i] = "ret"]
+              /\ UNCHANGED <<cfgv, status, gerr, loop, by, gpc, rpc, pt, role, done, rfail, ran, upst, dn>>
 \* --- runner layer ---
-RunEnter(s) == /\ gpc[s] = "inrun" /\ rpc[s] = "none" /\ rpc' = [rpc EXCEPT ![s] = "entered"]
-               /\ UNCHANGED <<cfgv, status, gerr, loop, gpc, pt, role, done, rfail, ran, upst, dn>>
+RunEnter(s) == /\ ~inc[s] /\ gpc[s] = "inrun" /\ rpc[s] = "none" /\ rpc' = [rpc EXCEPT ![s] = "entered"]
+               /\ UNCHANGED <<cfgv, status, gerr, loop, nl, by, gpc, pt, role, done, rfail, ran, upst, dn>>
 
 \* The next job of the run of s, as a function of how far it got (runner.go Run, contextForTask):
 \*   "up"  context start-up (only the first run that needs the context executes it; the others wait)
@@ -89,7 +113,7 @@ NextOp(s) ==
 CmdStart(s) == /\ rpc[s] = "entered" /\ role[s] = "none" /\ NextOp(s) \notin {"wait", "exit"}
                /\ role' = [role EXCEPT ![s] = NextOp(s)]
                /\ upst' = IF NextOp(s) = "up" THEN [upst EXCEPT ![ctx[s]] = "running"] ELSE upst
-               /\ UNCHANGED <<cfgv, status, gerr, loop, gpc, rpc, pt, done, rfail, ran, dn>>
+               /\ UNCHANGED <<cfgv, status, gerr, loop, nl, by, gpc, rpc, pt, done, rfail, ran, dn>>
 \* the job ends; a failing one ends the run (the context's after still runs)
 CmdEnd(s) ==
   /\ role[s] # "none" /\ role' = [role EXCEPT ![s] = "none"]
@@ -103,51 +127,67 @@ CmdEnd(s) ==
        [] role[s] = "ta"  -> /\ pt' = [pt EXCEPT ![s] = "tad"] /\ ran' = [ran EXCEPT ![s] = @ \cup {"ta"}]
                              /\ UNCHANGED <<upst, done, rfail>>       \* a failing after hook is only logged
        [] OTHER           -> pt' = [pt EXCEPT ![s] = "cad"] /\ ran' = [ran EXCEPT ![s] = @ \cup {"ca"}] /\ UNCHANGED <<upst, done, rfail>>
-  /\ UNCHANGED <<cfgv, status, gerr, loop, gpc, rpc, dn>>
+  /\ UNCHANGED <<cfgv, status, gerr, loop, nl, by, gpc, rpc, dn>>
 RunExit(s) == /\ rpc[s] = "entered" /\ role[s] = "none" /\ NextOp(s) = "exit"
               /\ rpc' = [rpc EXCEPT ![s] = "exited"]
               /\ rfail' = [rfail EXCEPT ![s] = @ \/ (pt[s] = "start" /\ ctx[s] # 0)]   \* the start-up error
-              /\ UNCHANGED <<cfgv, status, gerr, loop, gpc, pt, role, done, ran, upst, dn>>
+              /\ UNCHANGED <<cfgv, status, gerr, loop, nl, by, gpc, pt, role, done, ran, upst, dn>>
 \* --- back in the stage goroutine: Run returned, the outcome is published (two stores for an allowed failure) ---
-StageRet(s) == /\ gpc[s] = "inrun" /\ rpc[s] = "exited" /\ gpc' = [gpc EXCEPT ![s] = "back"]
-               /\ UNCHANGED <<cfgv, status, gerr, loop, rpc, pt, role, done, rfail, ran, upst, dn>>
+StageRet(s) == /\ gpc[s] = "inrun" /\ gpc' = [gpc EXCEPT ![s] = "back"]
+               /\ IF inc[s] THEN nl[s] = "ret" /\ rfail' = [rfail EXCEPT ![s] = gerr[1]]   \* Schedule returned LastError
+                            ELSE rpc[s] = "exited" /\ UNCHANGED rfail
+               /\ UNCHANGED <<cfgv, status, gerr, loop, nl, by, rpc, pt, role, done, ran, upst, dn>>
 Publish(s) == /\ gpc[s] = "back"
               /\ IF rfail[s] /\ status[s] = "R"
                    THEN /\ status' = [status EXCEPT ![s] = "E"]
-                        /\ IF Allow(s) THEN UNCHANGED <<gpc, gerr>> ELSE gpc' = [gpc EXCEPT ![s] = "fin"] /\ gerr' = TRUE
+                        /\ IF Allow(s) THEN UNCHANGED <<gpc, gerr>> ELSE gpc' = [gpc EXCEPT ![s] = "fin"] /\ gerr' = [gerr EXCEPT ![gr[s]] = TRUE]
                    ELSE status' = [status EXCEPT ![s] = "D"] /\ gpc' = [gpc EXCEPT ![s] = "fin"] /\ UNCHANGED gerr
-              /\ UNCHANGED <<cfgv, loop, rpc, pt, role, done, rfail, ran, upst, dn>>
+              /\ UNCHANGED <<cfgv, loop, nl, by, rpc, pt, role, done, rfail, ran, upst, dn>>
 \* the loop sees every stage terminal and leaves; Schedule returns after wg.Wait
-LoopExit == /\ loop /\ \A s \in Stages : status[s] \notin {"W", "R"} /\ loop' = FALSE
-            /\ UNCHANGED <<cfgv, status, gerr, gpc, rpc, pt, role, done, rfail, ran, upst, dn>>
+LoopExit == /\ loop /\ \A s \in Stages : gr[s] = 0 => status[s] \notin {"W", "R"}
+            /\ loop' = FALSE
+            /\ UNCHANGED <<cfgv, status, gerr, nl, by, gpc, rpc, pt, role, done, rfail, ran, upst, dn>>
 \* --- TaskRunner.Finish after Schedule returned: down of every context that was used ---
-Returned == ~loop /\ \A s \in Stages : gpc[s] \in {"none", "fin"} /\ status[s] \notin {"W", "R"}
+Returned == ~loop /\ \A s \in Stages : gr[s] = 0 => gpc[s] \in {"none", "fin"} /\ status[s] \notin {"W", "R"}
 DownStart(c) == /\ Returned /\ upst[c] # "no" /\ dn[c] = "no" /\ dn' = [dn EXCEPT ![c] = "running"]
-                /\ UNCHANGED <<cfgv, status, gerr, loop, gpc, rpc, pt, role, done, rfail, ran, upst>>
+                /\ UNCHANGED <<cfgv, status, gerr, loop, nl, by, gpc, rpc, pt, role, done, rfail, ran, upst>>
 DownEnd(c) == /\ dn[c] = "running" /\ dn' = [dn EXCEPT ![c] = "done"]
-              /\ UNCHANGED <<cfgv, status, gerr, loop, gpc, rpc, pt, role, done, rfail, ran, upst>>
+              /\ UNCHANGED <<cfgv, status, gerr, loop, nl, by, gpc, rpc, pt, role, done, rfail, ran, upst>>
 Next == \/ LoopExit
-        \/ \E s \in Stages : Visit(s) \/ StageEnter(s) \/ RunEnter(s) \/ CmdStart(s) \/ CmdEnd(s) \/ RunExit(s) \/ StageRet(s) \/ Publish(s)
+        \/ \E s \in Stages : Visit(s) \/ StageEnter(s) \/ NReturn(s) \/ RunEnter(s) \/ CmdStart(s) \/ CmdEnd(s) \/ RunExit(s) \/ StageRet(s) \/ Publish(s)
         \/ \E c \in Ctxs : DownStart(c) \/ DownEnd(c)
 Spec == Init /\ [][Next]_vars /\ WF_vars(Next)
 
 \* --- end-to-end properties ---
 UpOK(s) == ctx[s] = 0 \/ ~upFails[ctx[s]]
-TaskFails(s) == ~UpOK(s) \/ hb[s] = "fail" \/ Fails(s)          \* not: a failing after hook
+\* the reference outcome of a stage; Exp of an inner stage is its outcome once the included pipeline runs
 RECURSIVE Exp(_)
+InnerFails == \E t \in Inner : Exp(t) = "E"
+TaskFails(s) == IF inc[s] THEN InnerFails
+                ELSE ~UpOK(s) \/ hb[s] = "fail" \/ Fails(s)     \* not: a failing after hook
 Exp(s) == IF cls[s] = "CFALSE" THEN "S"
           ELSE IF \E d \in deps[s] : Exp(d) \in {"E", "C"} THEN "C"
           ELSE IF TaskFails(s) /\ ~Allow(s) THEN "E" ELSE "D"
-Launched(s) == Exp(s) \in {"D", "E"}
-ExpDone(s) == IF ~Launched(s) \/ ~UpOK(s) \/ hb[s] = "fail" THEN 0 ELSE IF Fails(s) THEN failAt[s] ELSE Total(s)
-ExpRan(s) == IF ~Launched(s) \/ ~UpOK(s) THEN {}
+\* the included pipeline runs iff some including stage is launched
+Reached(s) == gr[s] = 0 \/ \E i \in Stages : inc[i] /\ Exp(i) \in {"D", "E"}
+ExpFinal(s) == IF Reached(s) THEN Exp(s) ELSE "W"
+Launched(s) == ExpFinal(s) \in {"D", "E"}
+RunsTask(s) == Launched(s) /\ ~inc[s]
+ExpDone(s) == IF ~RunsTask(s) \/ ~UpOK(s) \/ hb[s] = "fail" THEN 0 ELSE IF Fails(s) THEN failAt[s] ELSE Total(s)
+ExpRan(s) == IF ~RunsTask(s) \/ ~UpOK(s) THEN {}
              ELSE (IF ctx[s] # 0 THEN {"cb", "ca"} ELSE {}) \cup (IF hb[s] # "none" THEN {"tb"} ELSE {})
                   \cup (IF ha[s] # "none" /\ hb[s] # "fail" /\ ~Fails(s) THEN {"ta"} ELSE {})
 AllOver == Returned /\ \A c \in Ctxs : dn[c] \notin {"running"} /\ (upst[c] # "no" => dn[c] = "done")
 Busy(s) == role[s] # "none" \/ rpc[s] = "entered"
-\* C01 at command level: while a job of s runs, every dependency's run is completely over
-CommandsAfterDependencies == \A s \in Stages : Busy(s) =>
-                                 \A d \in deps[s] : (rpc[d] = "exited" /\ role[d] = "none") \/ status[d] = "S"
+\* what a dependency ran is completely over
+Over(d) == \/ status[d] = "S"
+           \/ IF inc[d] THEN nl[d] = "ret" ELSE rpc[d] = "exited" /\ role[d] = "none"
+\* C01 at command level: while a job of s runs, everything its dependencies ran is completely over;
+\* for a stage of the included pipeline also everything the including stage (whose loop launched
+\* it) depends on
+CommandsAfterDependencies ==
+  \A s \in Stages : Busy(s) => /\ \A d \in deps[s] : Over(d)
+                               /\ gr[s] = 1 => by[s] # 0 /\ \A d \in deps[by[s]] : Over(d)
 \* C06: jobs of one run never overlap (role is one value) and none starts after the failing one
 StopsAtFailure == \A s \in Stages : /\ (Fails(s) => done[s] <= failAt[s])
                                     /\ (hb[s] = "fail" /\ "tb" \in ran[s] => done[s] = 0 /\ "ta" \notin ran[s])
@@ -155,11 +195,13 @@ StopsAtFailure == \A s \in Stages : /\ (Fails(s) => done[s] <= failAt[s])
 UpBeforeUse == \A s \in Stages : (role[s] \notin {"none", "up"} /\ ctx[s] # 0) => upst[ctx[s]] = "ok"
 DownAfterAll == \A c \in Ctxs : dn[c] # "no" => Returned /\ \A s \in Stages : rpc[s] # "entered"
 OneUpAtATime == \A c \in Ctxs : Cardinality({s \in Stages : role[s] = "up" /\ ctx[s] = c}) <= 1
+\* C03: when the run has returned nothing of the included pipeline is still going on
+NothingRunsAtReturn == Returned => \A s \in Stages : gpc[s] \in {"none", "fin"} /\ status[s] # "R"
 \* C02 / C03 / C14 at the end of the run
-FinalOK == Returned => /\ \A s \in Stages : status[s] = Exp(s)
-                       /\ gerr = (\E s \in Stages : Exp(s) = "E")
+FinalOK == Returned => /\ \A s \in Stages : status[s] = ExpFinal(s)
+                       /\ gerr[0] = (\E s \in Stages : gr[s] = 0 /\ Exp(s) = "E")
                        /\ \A s \in Stages : done[s] = ExpDone(s) /\ ran[s] = ExpRan(s)
-                       /\ \A c \in Ctxs : (upst[c] # "no") = (\E s \in Stages : Launched(s) /\ ctx[s] = c)
+                       /\ \A c \in Ctxs : (upst[c] # "no") = (\E s \in Stages : RunsTask(s) /\ ctx[s] = c)
 RunOnlyWhileStageRunning == \A s \in Stages : rpc[s] = "entered" => gpc[s] = "inrun" /\ status[s] = "R"
 Terminates == <>AllOver
 =======================================================================
